@@ -13,7 +13,7 @@ NCPU = os.cpu_count() or 16
 GUARD = '-DPHOTON_VERIF=1'
 FLAVORS = {
     'asan': '-O2 -g -DNDEBUG -fno-omit-frame-pointer -fsanitize=address,undefined '
-            '-fno-sanitize=alignment -fno-sanitize-recover=all',
+            '-fno-sanitize=alignment,vptr -fno-sanitize-recover=all',
     'tsan': '-O2 -g -DNDEBUG -fno-omit-frame-pointer -fsanitize=thread -Wno-tsan',
     'plain': '-O2 -g -DNDEBUG -fno-omit-frame-pointer',
 }
